@@ -39,7 +39,7 @@ PfInit == [cps |-> <<0, <<1>> >>, latest |-> <<0, <<2, 3, 4, 5, 6, 7>> >>, bpr |
            br |-> [on |-> FALSE, hs |-> <<>>, when |-> 0], tpr |-> [on |-> FALSE, last |-> 0, hs |-> <<>>, when |-> 0]]
 
 MCInit ==
-    /\ TLCSet(43, 0) /\ TLCSet(44, 0)
+    /\ TLCSet(43, 0) /\ TLCSet(44, 0) /\ TLCSet(45, 0)
     /\ world = MCWorld
     /\ cfg = [peers |-> {P}, lastN |-> 3, allow |-> AllowKF, interval |-> 100, maxOut |-> 1, liars |-> {}]
     /\ now = 0 /\ peer = [p \in {P} |-> ReadyPeer]
@@ -102,6 +102,6 @@ MCNext == MCSetScripts \/ MCRecvFilters \/ MCBlocksProof \/ MCRecvBlock \/ MCTic
 MCSpec == MCInit /\ [][MCNext]_mcVars
 
 MCInv ==
-    /\ NoForgedData /\ CellsSound /\ HistOnCanon /\ MatchedAtRightHeight /\ ScriptsNumberHonest
+    /\ NoForgedData /\ CellsSound /\ HistOnCanon /\ MatchedAtRightHeight /\ FiltersOfOwnChain /\ ScriptsNumberHonest
     /\ Quiet => Complete
 =============================================================================
